@@ -23,6 +23,10 @@ TRUSTED = {
            'display_width(middle_gap)*(columns-1) <= usize::MAX (the "result could not fit in memory" exemption made precise)',
     'A12': 'A12 the rewrite rules R0-R15 preserve behaviour (each application is logged in the evidence); the Python lexer/merger, Verus, Z3, Kani/CBMC, rustc',
     'A13': 'A13 BEC oracles: unicode-linebreak 0.1.5 and unicode-width 0.2.0 from the cargo registry are taken as the UAX #14 / width tables the properties refer to',
+    'A14': 'A14 wrap_optimal_fit returns Ok for usize-valued line widths and penalties ("the computation cannot overflow when the line widths are restricted to usize"): '
+           'assumed in U17 (floats are uninterpreted), checked within scope by BEC C04 (no overflow error for any usize-valued input)',
+    'A15': 'A15 a user-supplied WrapAlgorithm::Custom function returns an ordered partition of the words; a WordSplitter::Custom function returns strictly increasing '
+           'char boundaries inside the word; a WordSeparator::Custom function returns words that tile the line (their authors\' obligations)',
     'R16': 'R16 closure conversion: the body of an `iter::from_fn(move || …)` closure is verified as the `next` method of a struct holding the captured variables '
            '(same tokens, captures prefixed by `self.`); that `collect()` calls `next` until None and keeps the items in order is std behaviour (A4)',
     'R15': 'R15 generic parameters are verified at one instance: Opt = Options<\'a> (Into is the identity there), I = Vec<Word<\'a>>',
@@ -35,7 +39,7 @@ KANI = {'K1.default': K1, 'K1.no-default-features': K1MIN}
 
 PROPS = {
     'C01': {
-        'units': ['U11', 'U6', 'U1', 'U13', 'U14', 'U15'], 'level': 'other', 'trusted': ['A1', 'A3', 'A4', 'A5', 'A9', 'A10', 'A12', 'R15', 'R16'],
+        'units': ['U11', 'U6', 'U1', 'U13', 'U14', 'U15', 'U17'], 'level': 'other', 'trusted': ['A1', 'A3', 'A4', 'A5', 'A9', 'A10', 'A12', 'A14', 'A15', 'R15', 'R16'],
         'proved_part': 'Verus (all inputs): wrap_single_line_slow_path appends, for an ordered partition (runs) of a tiling of the line, exactly '
                        'indent_k ++ line[a_k .. a_k+len_k] ++ penalty_k with a_k = bytes of all earlier runs (whitespace included) and len_k = bytes of run k minus its last '
                        'whitespace — so slices are in order, never overlap, and only trailing whitespace of each run is skipped; earlier lines are untouched; Word::from is lossless '
@@ -64,7 +68,7 @@ PROPS = {
         'explanation': 'Mixed: the cost model and the structure are proved; minimality is bounded-only (Verus has no float theory; SMAWK\'s guarantee needs total monotonicity).',
     },
     'C04': {
-        'units': ['U1', 'U2', 'U3', 'U4', 'U5', 'U6', 'U8', 'U9', 'U10', 'U11', 'U12', 'U13', 'U14', 'U15', 'U16'], 'level': 'other', 'kani': [K1, K1MIN],
+        'units': ['U1', 'U2', 'U3', 'U4', 'U5', 'U6', 'U8', 'U9', 'U10', 'U11', 'U12', 'U13', 'U14', 'U15', 'U16', 'U17'], 'level': 'other', 'kani': [K1, K1MIN],
         'trusted': ['A1', 'A2', 'A3', 'A4', 'A5', 'A6', 'A7', 'A8', 'A9', 'A10', 'A11', 'A12', 'R15'],
         'proved_part': 'Verus: absence of panics (index/slice bounds incl. char boundaries in NonEmptyLines, arithmetic overflow, unwrap on None, callee preconditions) and '
                        'termination for wrap_first_fit, wrap_optimal_fit (Err only from the is_infinite test), skip_ansi_escape_sequence, display_width (A8), NonEmptyLines::next, '
@@ -82,10 +86,11 @@ PROPS = {
         'explanation': 'Mixed: the lemma that makes the shortcut sound is proved; equality of the two code paths is relational over two calls and checked by bounded exhaustive enumeration.',
     },
     'C06': {
-        'units': ['U1', 'U2'], 'level': 'proof', 'trusted': ['A1', 'A5', 'A6', 'A7', 'A11', 'A12'],
+        'units': ['U1', 'U2', 'U17'], 'level': 'proof', 'trusted': ['A1', 'A5', 'A6', 'A7', 'A11', 'A12', 'A14', 'A15'],
         'proved_part': 'Verus, all inputs: both algorithms return >= 1 line, the lines\' views concatenate to fragments@, each line is the subrange between consecutive breaks, '
                        'lines are non-empty for non-empty input, exactly one empty line for empty input (optimal-fit: when it returns Ok; under the assumed SMAWK table shape A6).',
-        'bounded_part': 'BEC cross-check with real IEEE floats (negative, fractional, huge), empty width lists, pointer identity of the returned slices.',
+        'bounded_part': 'BEC cross-check with real IEEE floats (negative, fractional, huge), empty width lists, pointer identity of the returned slices. '
+                        'U17 additionally proves that WrapAlgorithm::wrap (the dispatch used by wrap) hands that partition on, and that the Word accessors are pure functions of the fields.',
         'explanation': 'Proof: the statement is the postcondition of wrap_first_fit and wrap_optimal_fit, discharged by Verus on the extracted functions; BEC re-checks it by execution.',
     },
     'C07': {
@@ -118,7 +123,7 @@ PROPS = {
         'explanation': 'Proof: display_width equals the spec function written from the statement, for all texts (Verus); per-char facts for all chars (Kani, and exhaustive enumeration).',
     },
     'C11': {
-        'units': ['U6', 'U13'], 'level': 'other', 'trusted': ['A3', 'A4', 'A12', 'A13'],
+        'units': ['U6', 'U13', 'U3'], 'level': 'other', 'trusted': ['A3', 'A4', 'A12', 'A13'],
         'proved_part': 'Verus: Word::from — word ++ whitespace is the input, whitespace is spaces only, the word does not end in a space, width == display width, no penalty. '
                        'ASCII separator (U13, all lines): every word is Word::from(line[s0..s1]) where s1 is the first position after s0 at which a space is followed by a non-space '
                        '(or the end of the line) — the boundaries are exactly those positions — and the collected words tile the line.',
